@@ -5,28 +5,30 @@ import (
 	"encoding/json"
 	"fmt"
 	"os"
+	"runtime"
 	"strconv"
 	"strings"
+	"sync/atomic"
 	"testing"
 	"time"
 )
 
 // ReplayFile is the on-disk form of a reproducible run.
 type ReplayFile struct {
-	Property  string
-	Rule      string
-	Key       string
-	Detail    string
-	Seed      uint64
-	Profile   string
-	Tier      string
-	Mode      string
-	TreeHash  string
-	Config    RunConfig
-	Program   *Program
-	Trace     []string
-	LogHash   string
-	Minimised bool
+	Property     string
+	Rule         string
+	Key          string
+	Detail       string
+	Seed         uint64
+	Profile      string
+	Tier         string
+	Mode         string
+	TreeHash     string
+	Config       RunConfig
+	Program      *Program
+	Trace        []string
+	LogHash      string
+	Minimised    bool
 	Reproducible *bool `json:",omitempty"`
 }
 
@@ -107,11 +109,28 @@ func TestSim(t *testing.T) {
 	sampleEvery := envInt("SIM_SAMPLE_EVERY", 0)
 	verbose := os.Getenv("SIM_VERBOSE") != ""
 	t0 := time.Now()
+	var curSeed atomic.Uint64
+	var curStart atomic.Int64
+	go func() { // wall-clock watchdog, outside any bubble
+		for {
+			time.Sleep(2 * time.Second)
+			st := curStart.Load()
+			if st != 0 && time.Since(time.Unix(0, st)) > time.Duration(envInt("SIM_RUN_WATCHDOG_S", 90))*time.Second {
+				fmt.Printf("WATCHDOG run of seed %d exceeded the wall-clock limit\n", curSeed.Load())
+				buf := make([]byte, 1<<20)
+				n := runtime.Stack(buf, true)
+				os.Stdout.Write(buf[:n])
+				os.Exit(3)
+			}
+		}
+	}()
 	for i := 0; i < count; i++ {
 		if budget > 0 && time.Since(t0) > budget {
 			break
 		}
 		seed := seed0 + uint64(i)*stride
+		curSeed.Store(seed)
+		curStart.Store(time.Now().UnixNano())
 		cfg, prog := Generate(seed, profile, tier)
 		res := Run(t, cfg, prog, RunOptions{KeepEvents: verbose})
 		l := lineOf(res, cfg)
@@ -134,6 +153,9 @@ func TestSim(t *testing.T) {
 				fmt.Println("PANIC", p.Task, p.Value, "\n", p.Stack)
 			}
 			fmt.Println("LEAKED", res.Leaked)
+			for _, r := range res.Remaining {
+				fmt.Println("REMAINING", r)
+			}
 		}
 		if out != nil {
 			b, _ := json.Marshal(l)
